@@ -85,6 +85,12 @@ def name_program(nm, mask=15, dim=True):
     for x in ([v(N)] if ns else []) + ([v(S)] if ss else []) + ([a(N, two)] if na else []) + ([a(S, two)] if sa else []):
         pr += [("e", x), ("sep", ";")]
     line(80, ("let", v("Q"), ("fn", "LEN", [v(S) if ss else ("str", "AB")]), False), ("print", pr[:-1], None))
+    if ns:
+        # two run-translated calls on the right, the target read only inside the second: the tool's temporaries must
+        # stay apart from the user's variable
+        line(85, ("let", v(N), ("bin", "+", ("fn", "INT", [v("Q")]), ("fn", "INT", [v(N)])), False))
+    if ss:
+        line(86, ("let", v(S), ("bin", "+", ("fn", "STR$", [v("Q")]), ("fn", "LEFT$", [v(S), ("fn", "INT", [one])])), False))
     data = []
     for t in rd:
         data.append(("u", "A") if t[1].endswith("$") else ("n", 1.0, ["1"]))
@@ -191,6 +197,29 @@ def run_case(case):
                     if name in all4 and name.startswith("arr_") and tuple(dims) != (6,):
                         obs["viols"].append({"sig": "C09/dimensioned-array-replaced", "detail": dict(detail, identifier=name, dims=list(dims))})
                         break
+            # a user variable is never the tool's scratch space: within one emitted line, a RUN may not deposit its
+            # result in a user variable that a later RUN of the same line still reads as input
+            by_line = {}
+            for st in main.body:
+                by_line.setdefault(st.line, []).append(st)
+            for ln_, sts in by_line.items():
+                written = set()
+                hit = None
+                for st in sts:
+                    if st.k != "run" or not st.args:
+                        continue
+                    ins = set()
+                    for a in st.args[:-1]:
+                        static.walk(a, lambda x: ins.add(x[1]) if x[0] == "ref" else None)
+                    if ins & written:
+                        hit = sorted(ins & written)
+                        break
+                    last = st.args[-1]
+                    if last[0] == "ref" and not last[2] and last[1] in all4 and not last[1].startswith("arr_"):
+                        written.add(last[1])
+                if hit:
+                    obs["viols"].append({"sig": "C09/user-variable-used-as-temporary", "detail": dict(detail, identifiers=hit)})
+                    break
             both = sorted(nm2 for nm2, ks in kinds.items() if len(ks) > 1)
             obs["counters"]["kind_checks"] = len(kinds)
             if both:
